@@ -42,3 +42,425 @@ Lemma brotli_cpy_ranges_ok : Brotli.Spec.cpy_ranges = Impl.go_cpy_ranges. Proof.
 Lemma brotli_blk_ranges_ok : Brotli.Spec.blk_ranges = Impl.go_blk_ranges. Proof. vm_compute. reflexivity. Qed.
 Lemma brotli_clen_order_ok : Brotli.Spec.clen_order = Impl.go_clen_order. Proof. vm_compute. reflexivity. Qed.
 Lemma brotli_transforms_ok : Brotli.Tables.transforms = Impl.transforms. Proof. vm_compute. reflexivity. Qed.
+
+(* ========================================================================
+   Tables DERIVED by the library at package initialisation (init / initLUTs /
+   package-level closures) and used when decoding.  Each dumped table is
+   proved equal to the tabulation, over the table's whole index domain, of
+   the function the MODEL uses at the corresponding place (the models compute
+   these things from formulas and tries, not from tables).
+   ======================================================================== *)
+(* no Import: these files define names (rbits, init, ...) that would shadow the ones used here *)
+From V Require Prefix.ReaderImpl Bzip2.SpecR Brotli.Safe.
+
+Definition iota (n : nat) : list N := map N.of_nat (seq 0 n).
+Definition iota_from (a : nat) (n : nat) : list N := map N.of_nat (seq a n).
+
+(* a Go slice index: out of range is [None] (a run-time panic), never a default *)
+Definition idx {A} (l : list A) (i : N) : option A := nth_error l (N.to_nat i).
+
+(* what a model decoder [p] does on the bit string "the [w] low bits of [v],
+   least significant first" (= a Go bit buffer holding v): the value it
+   returns and the number of bits it consumed; [None] if it fails *)
+Definition obs {A} (p : prog A) (w : nat) (v : N) : option (A * N) :=
+  match run p (ast_init (val_bits w v)) with
+  | Done a s => Some (a, a_pos s)
+  | Fail _ _ => None
+  end.
+
+(* ---- built prefix decoders ------------------------------------------------
+   dump: (chunks, links, [chunkMask; linkMask; chunkBits; minBits; numSyms]).
+   [go_lookup] is the table walk of ReadSymbol (brotli/bit_reader.go and
+   internal/prefix/reader.go, identical): the symbol and bit count found for a
+   bit buffer [v]; countBits = 5 in both packages. *)
+Definition godec : Type := (list N * list (list N) * list N)%type.
+Definition count_bits : N := 5.
+Definition count_mask : N := 31.
+
+Definition go_lookup (d : godec) (v : N) : option (N * N) :=
+  match d with
+  | (chunks, links, [chunkMask; linkMask; chunkBits; _; _]) =>
+    match idx chunks (N.land v chunkMask) with
+    | None => None
+    | Some chunk =>
+      let nb := N.land chunk count_mask in
+      if chunkBits <? nb then
+        match idx links (N.shiftr chunk count_bits) with
+        | None => None
+        | Some link =>
+          match idx link (N.land (N.shiftr v chunkBits) linkMask) with
+          | None => None
+          | Some c2 => Some (N.shiftr c2 count_bits, N.land c2 count_mask)
+          end
+        end
+      else Some (N.shiftr chunk count_bits, nb)
+    end
+  | _ => None
+  end.
+
+(* the decoder's parameters and table shapes as Init must leave them, computed
+   from the MODEL's tabulation [tab] over all [w]-bit patterns (w = longest
+   code): [chunkMask; linkMask; chunkBits; minBits; numSyms], number of
+   chunks, length of each link table *)
+Definition opt_list {A} (l : list (option A)) : list A :=
+  flat_map (fun o => match o with Some a => [a] | None => [] end) l.
+Definition count_distinct (l : list N) : N := N.of_nat (length (nodup N.eq_dec l)).
+
+Definition model_shape (max_chunk_bits : N) (w : nat) (tab : list (option (N * N)))
+  : list N * N * list N :=
+  let sl := opt_list tab in
+  let maxBits := fold_right (fun e acc => N.max (snd e) acc) 0 sl in
+  let minBits := fold_right (fun e acc => N.min (snd e) acc) maxBits sl in
+  let chunkBits := N.min maxBits max_chunk_bits in
+  let linkMask := 2 ^ (maxBits - chunkBits) - 1 in
+  (* one link table per distinct chunk index that starts a code longer than chunkBits *)
+  let long := map (fun ve => fst ve mod 2 ^ chunkBits)
+                  (filter (fun ve => match snd ve with Some (_, l) => chunkBits <? l | None => false end)
+                          (combine (iota (Nat.pow 2 w)) tab)) in
+  ([2 ^ chunkBits - 1; linkMask; chunkBits; minBits; count_distinct (map fst sl)],
+   2 ^ chunkBits,
+   repeat (linkMask + 1) (N.to_nat (count_distinct long))).
+
+Definition go_shape (d : godec) : list N * N * list N :=
+  let '(chunks, links, params) := d in
+  (params, N.of_nat (length chunks), map (fun l => N.of_nat (length l)) links).
+
+(* the whole check for one decoder: Go's walk finds, for EVERY bit pattern of
+   the longest code's width, what the model decoder returns and consumes; the
+   longest code has that width; parameters and shapes are as computed from the
+   model *)
+Definition dec_ok (d : godec) (w : nat) (tab : list (option (N * N))) : Prop :=
+  map (go_lookup d) (iota (Nat.pow 2 w)) = tab /\
+  go_shape d = model_shape 9 w tab /\
+  existsb (fun o => match o with Some (_, l) => l =? N.of_nat w | None => false end) tab = true.
+
+(* built encoders: (chunks, [chunkMask; numSyms]); WriteSymbol's lookup *)
+Definition goenc : Type := (list N * list N)%type.
+Definition go_enc (e : goenc) (sym : N) : option (N * N) :=     (* value, length *)
+  match e with
+  | (chunks, [chunkMask; _]) =>
+    match idx chunks (N.land sym chunkMask) with
+    | Some chunk => Some (N.shiftr chunk count_bits, N.land chunk count_mask)
+    | None => None
+    end
+  | _ => None
+  end.
+(* every symbol's code, decoded by the model decoder [p], is that symbol, all bits used *)
+Definition enc_ok (e : goenc) (p : prog N) (nsyms : nat) : bool :=
+  forallb (fun sym => match go_enc e sym with
+                      | Some (v, l) => match obs p (N.to_nat l) v with
+                                       | Some (s, used) => (s =? sym) && (used =? l)
+                                       | None => false
+                                       end
+                      | None => false
+                      end) (iota nsyms)
+  && match e with
+     | (chunks, [chunkMask; numSyms]) =>
+       (numSyms =? N.of_nat nsyms) && (N.of_nat (length chunks) =? chunkMask + 1)
+       && (N.land chunkMask (chunkMask + 1) =? 0) && (N.of_nat nsyms <=? chunkMask + 1)
+     | _ => false
+     end.
+
+Ltac tab_ok := vm_compute; repeat split; reflexivity.
+
+(* ---- brotli: byte reversal, identity (brotli/common.go, internal/common.go) -- *)
+(* [rev8] is the byte reversal of the bit-reader model (Prefix/ReaderImpl.v [ord]) *)
+Lemma brotli_reverse_lut_ok : map Prefix.ReaderImpl.rev8 (iota 256) = Impl.br_reverse_lut.
+Proof. tab_ok. Qed.
+Lemma internal_reverse_lut_ok : map Prefix.ReaderImpl.rev8 (iota 256) = Impl.internal_reverse_lut.
+Proof. tab_ok. Qed.
+(* IdentityLUT is the start list of internal.MoveToFront (brotli's inverse move
+   to front); decoding the index string 0,1,..,255 with the model's
+   [inverse_mtf] reads the model's start list off position by position *)
+Lemma internal_identity_lut_ok : inverse_mtf (iota 256) = Impl.internal_identity_lut.
+Proof. tab_ok. Qed.
+
+(* ---- brotli: insert-and-copy LUT (prefix.go initLengthLUTs) ------------------
+   [command] decodes symbol -> [iac_codes] -> [nth_range ins_ranges] /
+   [nth_range cpy_ranges]; iacLUT[sym] stores the two ranges. 704 entries. *)
+Definition model_iac (sym : N) : (N * N) * (N * N) :=
+  let '(icode, ccode) := iac_codes sym in
+  (nth_range ins_ranges icode, nth_range cpy_ranges ccode).
+Lemma brotli_iac_lut_ok : map model_iac (iota 704) = Impl.br_iac_lut.
+Proof. tab_ok. Qed.
+
+(* ---- brotli: short distance codes (distShortLUT) -----------------------------
+   reader.go: dist = dists[rec.index] + rec.delta; dist <= 0 is corrupted.
+   Outer [None] = index out of range (panic), inner [None] = corrupted. *)
+Definition go_short_dist (e : N * Z) (r : ring) : option (option N) :=
+  let '(d1, d2, d3, d4) := r in
+  match idx [d1; d2; d3; d4] (fst e) with
+  | None => None
+  | Some d => let x := (Z.of_N d + snd e)%Z in
+              Some (if (x <=? 0)%Z then None else Some (Z.to_N x))
+  end.
+(* for EVERY ring of last distances (all positive: the invariant [ring_pos] of
+   Brotli/Safe.v; the Go ring too only ever holds accepted distances > 0), all
+   16 codes *)
+Lemma brotli_dist_short_lut_ok : forall r : ring, Brotli.Safe.ring_pos r ->
+  map (fun e => go_short_dist e r) Impl.br_dist_short_lut
+  = map (fun code => Some (short_dist code r)) (iota 16).
+Proof.
+  intros [[[d1 d2] d3] d4] (P1 & P2 & P3 & P4).
+  replace (iota 16) with [0; 1; 2; 3; 4; 5; 6; 7; 8; 9; 10; 11; 12; 13; 14; 15]
+    by (vm_compute; reflexivity).
+  unfold Impl.br_dist_short_lut. cbn [map].
+  repeat (apply (f_equal2 cons); [ | ]); try reflexivity;
+    cbv - [N.ltb Z.leb N.sub N.add Z.add Z.of_N Z.to_N];
+    repeat match goal with
+           | |- context [(?a <=? ?b)%Z] => destruct (Z.leb_spec a b)
+           | |- context [?a <? ?b] => destruct (N.ltb_spec a b)
+           end; try lia; repeat f_equal; lia.
+Qed.
+
+(* ---- brotli: long distance codes (distLongLUT[NPOSTFIX]) ----------------------
+   reader.go: rec := distLongLUT[npostfix][sym-16-ndirect];
+   dist = ndirect + rec.base + ReadBits(rec.bits)<<npostfix.
+   Model: [decode_distance] (formula of RFC section 4), RUN on 24 zero bits and
+   on 24 one bits, with NDIRECT = 0 and NDIRECT = 15<<NPOSTFIX: the value
+   returned and the number of bits consumed.  48<<NPOSTFIX entries each. *)
+Definition model_dist_long (np nd i : N) : option (N * N) * option (N * N) :=
+  let p := decode_distance np nd (16 + nd + i) (1, 1, 1, 1) in
+  (obs p 24 0, obs p 24 (2 ^ 24 - 1)).
+Definition go_dist_long (np nd : N) (e : N * N) : option (N * N) * option (N * N) :=
+  let '(base, bits) := e in
+  (Some (nd + base + N.shiftl 0 np, bits), Some (nd + base + N.shiftl (2 ^ bits - 1) np, bits)).
+Lemma brotli_dist_long_lut_ok :
+  map (fun np => map (fun i => (model_dist_long np 0 i, model_dist_long np (15 * 2 ^ np) i))
+                     (iota (48 * Nat.pow 2 (N.to_nat np)))) [0; 1; 2; 3]
+  = map (fun nt => map (fun e => (go_dist_long (fst nt) 0 e, go_dist_long (fst nt) (15 * 2 ^ fst nt) e))
+                       (snd nt))
+        (combine [0; 1; 2; 3] Impl.br_dist_long_lut)
+  /\ length Impl.br_dist_long_lut = 4%nat.
+Proof. tab_ok. Qed.
+
+(* ---- brotli: the initial last distances (reader.go Reset) ----------------------
+   the model's [brotli_prog] starts its meta-block loop with exactly this ring
+   (equation checked by conversion) *)
+Definition ring_of (l : list N) : option ring :=
+  match l with [a; b; c; d] => Some (a, b, c, d) | _ => None end.
+Lemma brotli_init_dists_ok : forall dict_byte inbits,
+  option_map (fun r => wbits <- read_wbits ;;
+                       loop (loop_depth inbits) (metablock dict_byte (2 ^ wbits - 16) inbits) r)
+             (ring_of Impl.br_init_dists)
+  = Some (brotli_prog dict_byte inbits).
+Proof. reflexivity. Qed.
+
+(* ---- brotli: literal context LUTs (context.go initContextLUTs) ---------------
+   getLitContextID(p1, p2, mode) = contextP1LUT[mode<<8+p1] | contextP2LUT[mode<<8+p2];
+   model: [lit_context mode p1 p2] (RFC section 7.1). *)
+(* the two tables, 4*256 entries each: the model's context with the other byte 0 *)
+Lemma brotli_context_p1_lut_ok :
+  map (fun i => lit_context (i / 256) (i mod 256) 0) (iota 1024) = Impl.br_context_p1_lut.
+Proof. tab_ok. Qed.
+Lemma brotli_context_p2_lut_ok :
+  map (fun i => lit_context (i / 256) 0 (i mod 256)) (iota 1024) = Impl.br_context_p2_lut.
+Proof. tab_ok. Qed.
+(* and the Go lookup formula on the WHOLE domain 4 x 256 x 256 *)
+Definition go_lit_context (t1 t2 : nmap N) (mode p1 p2 : N) : option N :=
+  let base := N.shiftl mode 8 in
+  match nm_get t1 (base + p1), nm_get t2 (base + p2) with
+  | Some a, Some b => Some (N.lor a b)
+  | _, _ => None
+  end.
+Definition opt_eqb (a : option N) (b : N) : bool :=
+  match a with Some x => x =? b | None => false end.
+Lemma brotli_lit_context_ok :
+  let t1 := nm_of_list Impl.br_context_p1_lut in
+  let t2 := nm_of_list Impl.br_context_p2_lut in
+  let bytes := iota 256 in
+  forallb (fun mode => forallb (fun p1 => forallb (fun p2 =>
+    opt_eqb (go_lit_context t1 t2 mode p1 p2) (lit_context mode p1 p2)) bytes) bytes) [0; 1; 2; 3]
+  = true.
+Proof. vm_compute. reflexivity. Qed.
+
+(* ---- brotli: context map run lengths (maxRLERanges, reader.go readContextMap) -
+   Go: n = ReadOffset(sym-1, maxRLERanges) = base + ReadBits(bits), sym = 1..16.
+   Model: [cmap_body] (RFC section 7.3) RUN with a zero-bit code for [sym],
+   RLEMAX = 16, on 16 zero bits and on 16 one bits: the number of zeros it
+   emits and the bits it consumes. *)
+Definition model_rle (sym w v : N) : option (N * N) :=
+  let todo := 2 ^ 20 in
+  match obs (cmap_body (HLeaf sym) 16 (todo, [])) (N.to_nat w) v with
+  | Some (inl (todo', zeros), used) =>
+    if (N.of_nat (length zeros) =? todo - todo') && forallb (N.eqb 0) zeros
+    then Some (todo - todo', used) else None
+  | _ => None
+  end.
+Lemma brotli_rle_ranges_ok :
+  map (fun sym => (model_rle sym 16 0, model_rle sym 16 (2 ^ 16 - 1))) (iota_from 1 16)
+  = map (fun e => (Some (fst e + 0, snd e), Some (fst e + (2 ^ snd e - 1), snd e))) Impl.go_rle_ranges.
+Proof. tab_ok. Qed.
+
+(* ---- brotli: dictionary word counts (dict.go initDictLUTs) -------------------
+   Go: index = wordIdx % dictSizes[len]; model [dict_ref]: addr mod 2^NDBITS[len];
+   lengths below 4 have no words ([dict_offsets_from]'s convention). *)
+Lemma brotli_dict_sizes_ok :
+  map (fun l => let nb := nthN dict_ndbits l in if nb =? 0 then 0 else 2 ^ nb) (iota 25)
+  = Impl.br_dict_sizes.
+Proof. tab_ok. Qed.
+
+(* ---- brotli: simple prefix code lengths (simpleLens1..4b) --------------------
+   Model: [read_simple_code] RUN on NSYM-1, NSYM distinct 8-bit symbols (in a
+   non-sorted order), tree-select bit; the depth in the resulting trie of the
+   i-th symbol read = the code length Go attaches to codes[i] before sorting. *)
+Fixpoint tree_depth (t : htree) (s : N) : option N :=
+  match t with
+  | HEmpty => None
+  | HLeaf x => if x =? s then Some 0 else None
+  | HNode l r =>
+    match tree_depth l s with
+    | Some d => Some (d + 1)
+    | None => option_map (N.add 1) (tree_depth r s)
+    end
+  end.
+Definition model_simple_lens (nsym : nat) (sel : bool) : option (list (option N)) :=
+  let syms := firstn nsym [200; 7; 131; 5] in
+  let bits := val_bits 2 (N.of_nat nsym - 1) ++ flat_map (val_bits 8) syms ++ [sel] in
+  match run (read_simple_code 256) (ast_init bits) with
+  | Done t s =>
+    (* the tree-select bit is read for NSYM = 4 only *)
+    if a_pos s =? 2 + 8 * N.of_nat nsym + (if Nat.eqb nsym 4 then 1 else 0)
+    then Some (map (tree_depth t) syms) else None
+  | Fail _ _ => None
+  end.
+Lemma brotli_simple_lens_ok :
+  [model_simple_lens 1 false; model_simple_lens 2 false; model_simple_lens 3 false;
+   model_simple_lens 4 false; model_simple_lens 4 true]
+  = map (fun l => Some (map Some l)) Impl.br_simple_lens.
+Proof. tab_ok. Qed.
+
+(* ---- brotli: the four fixed prefix codes and their built decoders ------------
+   (prefix.go initPrefixCodeLUTs; prefix_decoder.go Init)
+     decCLens   <-> [sym_or_corrupt clcl_tree]   (read_clcl, RFC 3.5)
+     decMaxRLE  <-> the RLEMAX field read at the head of [read_context_map] (7.3)
+     decWinBits <-> [read_wbits] (9.1); Go's symbol 0 = the reserved pattern,
+                    which readStreamHeader rejects as corrupted
+     decCounts  <-> [read_count] (9.2: NBLTYPES, NTREES)                        *)
+
+(* prefixCountBits, prefixSymbolBits, prefixMaxChunkBits, maxPrefixBits: what
+   [go_lookup] / [model_shape 9] assume of brotli's prefix_decoder.go *)
+Lemma brotli_prefix_consts_ok : [count_bits; 27; 9; 15] = Impl.br_prefix_consts.
+Proof. tab_ok. Qed.
+
+(* the model reads RLEMAX inline; [rlemax_prog] is that fragment, and the
+   equation below (checked by conversion) shows it IS the head of the model's
+   [read_context_map] *)
+Definition rlemax_prog : prog N :=
+  b <- rbits 1 ;;
+  if b =? 0 then Ret 0 else x <- rbits 4 ;; Ret (x + 1).
+Lemma read_context_map_rlemax size ntrees :
+  read_context_map size ntrees =
+  (rlemax <- rlemax_prog ;;
+   tree <- read_prefix_code (ntrees + rlemax) ;;
+   cm <- loop (loop_depth size) (cmap_body tree rlemax) (size, []) ;;
+   im <- rbits 1 ;;
+   Ret (if im =? 1 then inverse_mtf cm else cm)).
+Proof. reflexivity. Qed.
+
+(* [read_wbits] with "corrupted" observed as Go's symbol 0 *)
+Definition obs_wbits (w : nat) (v : N) : option (N * N) :=
+  match run read_wbits (ast_init (val_bits w v)) with
+  | Done a s => Some (a, a_pos s)
+  | Fail ECorrupted s => Some (0, a_pos s)
+  | Fail _ _ => None
+  end.
+
+Definition tabulate (ob : nat -> N -> option (N * N)) (w : nat) : list (option (N * N)) :=
+  map (ob w) (iota (Nat.pow 2 w)).
+
+Lemma brotli_dec_clens_ok :
+  dec_ok Impl.br_dec_clens 4 (tabulate (obs (sym_or_corrupt clcl_tree)) 4).
+Proof. tab_ok. Qed.
+Lemma brotli_dec_maxrle_ok : dec_ok Impl.br_dec_maxrle 5 (tabulate (obs rlemax_prog) 5).
+Proof. tab_ok. Qed.
+Lemma brotli_dec_winbits_ok : dec_ok Impl.br_dec_winbits 7 (tabulate obs_wbits 7).
+Proof. tab_ok. Qed.
+(* 2048 patterns: 512 chunks and 64 link tables of 4 *)
+Lemma brotli_dec_counts_ok : dec_ok Impl.br_dec_counts 11 (tabulate (obs read_count) 11).
+Proof. tab_ok. Qed.
+
+(* the code lists (symbol, value, length): every listed code word, fed to the
+   model decoder, yields that symbol and is consumed entirely; symbols strictly
+   increase (Init's requirement); there are as many codes as the model decoder
+   has distinct outcomes *)
+Fixpoint increasing (l : list N) : bool :=
+  match l with
+  | a :: (b :: _) as r => (a <? b) && increasing r
+  | _ => true
+  end.
+Definition codes_ok (ob : nat -> N -> option (N * N)) (w : nat) (cs : list (N * N * N)) : bool :=
+  forallb (fun c => let '(sym, val, len) := c in
+                    match ob (N.to_nat len) val with
+                    | Some (s, used) => (s =? sym) && (used =? len) && (val <? 2 ^ len)
+                    | None => false
+                    end) cs
+  && increasing (map (fun c => fst (fst c)) cs)
+  && (N.of_nat (length cs) =? count_distinct (map fst (opt_list (tabulate ob w)))).
+
+Lemma brotli_code_clens_ok : codes_ok (obs (sym_or_corrupt clcl_tree)) 4 Impl.br_code_clens = true.
+Proof. tab_ok. Qed.
+Lemma brotli_code_maxrle_ok : codes_ok (obs rlemax_prog) 5 Impl.br_code_maxrle = true.
+Proof. tab_ok. Qed.
+Lemma brotli_code_winbits_ok : codes_ok obs_wbits 7 Impl.br_code_winbits = true.
+Proof. tab_ok. Qed.
+Lemma brotli_code_counts_ok : codes_ok (obs read_count) 11 Impl.br_code_counts = true.
+Proof. tab_ok. Qed.
+
+(* ---- flate: the fixed Huffman coders (flate/prefix.go decLit/decDist/encLit/encDist)
+   model: [fixedLitTree] / [fixedDistTree], the tries [one_block] decodes
+   fixed blocks with (RFC 1951 section 3.2.6); 512 and 32 chunks *)
+Lemma flate_dec_lit_ok :
+  dec_ok Impl.flate_dec_lit 9 (tabulate (obs (sym_or_corrupt fixedLitTree)) 9).
+Proof. tab_ok. Qed.
+Lemma flate_dec_dist_ok :
+  dec_ok Impl.flate_dec_dist 5 (tabulate (obs (sym_or_corrupt fixedDistTree)) 5).
+Proof. tab_ok. Qed.
+(* encoders: symbol -> (value, length), 288 and 32 symbols *)
+Lemma flate_enc_lit_ok : enc_ok Impl.flate_enc_lit (sym_or_corrupt fixedLitTree) 288 = true.
+Proof. tab_ok. Qed.
+Lemma flate_enc_dist_ok : enc_ok Impl.flate_enc_dist (sym_or_corrupt fixedDistTree) 32 = true.
+Proof. tab_ok. Qed.
+
+(* ---- xflate/internal/meta: decHuff / encHuff / oneBitsLUT (meta.go) ----------
+   model decoder: [sym_walk 3 decHuff []] as called by [sym_body]; model
+   encoder: the code bits at the head of [msym_bits]; bit count: [popcount8] *)
+Definition obs_meta_sym (w : nat) (v : N) : option (N * N) :=
+  match obs (sym_walk 3 Meta.Model.decHuff []) w v with
+  | Some (Some s, used) => Some (s, used)
+  | _ => None
+  end.
+Lemma meta_dec_huff_ok : dec_ok Impl.meta_dec_huff 3 (tabulate obs_meta_sym 3).
+Proof. tab_ok. Qed.
+Definition go_enc_bits (e : goenc) (sym : N) : option (list bool) :=
+  match go_enc e sym with Some (v, l) => Some (val_bits (N.to_nat l) v) | None => None end.
+Lemma meta_enc_huff_ok :
+  map (go_enc_bits Impl.meta_enc_huff) [0; 1; 2; 3]
+  = [Some (msym_bits MZero); Some (msym_bits MOne);
+     Some (firstn 3 (msym_bits (MRepLast 0))); Some (firstn 3 (msym_bits (MRepZero 0)))]
+  /\ snd Impl.meta_enc_huff = [3; 4] /\ length (fst Impl.meta_enc_huff) = 4%nat.
+Proof. tab_ok. Qed.
+Lemma meta_one_bits_lut_ok : map popcount8 (iota 256) = Impl.meta_one_bits_lut.
+Proof. tab_ok. Qed.
+
+(* ---- bzip2: selector coders (bzip2/prefix.go decSel/encSel) -------------------
+   model: [read_unary 6 0] as called by [read_sel] (bits in stream order; the
+   big-endian prefix.Reader presents the first stream bit as bit 0) *)
+Lemma bzip2_dec_sel_ok :
+  dec_ok Impl.bzip2_dec_sel 6 (tabulate (obs (Bzip2.SpecR.read_unary 6 0)) 6).
+Proof. tab_ok. Qed.
+Lemma bzip2_enc_sel_ok : enc_ok Impl.bzip2_enc_sel (Bzip2.SpecR.read_unary 6 0) 7 = true.
+Proof. tab_ok. Qed.
+
+(* ---- bzip2: block CRC (bzip2/common.go crc.update) ----------------------------
+   The package stores no CRC table: it drives hash/crc32's IEEE table with
+   bit-reversed bytes and state.  Its effective table is determined by the
+   checksums of the 256 one-byte blocks, computed by crc.update itself; they
+   equal the model's [bz_crc], and the model's table [crc_table] (BZ2_crc32Table)
+   is recovered from them entry by entry. *)
+Lemma bzip2_crc1_ok : map (fun b => bz_crc [b]) (iota 256) = Impl.bzip2_crc1.
+Proof. tab_ok. Qed.
+Lemma bzip2_crc_table_ok :
+  map (fun j => nm_get crc_table j) (iota 256)
+  = map (fun j => option_map (fun c => N.lxor c 255) (idx Impl.bzip2_crc1 (N.lxor j 255))) (iota 256).
+Proof. tab_ok. Qed.
